@@ -83,7 +83,7 @@ var specC02 = &worldSpec{
 		W:        weights(map[string]int{"read": 22, "hop": 2, "remove": 16, "replay": 12, "hold": 3, "reload": 4, "setinit": 2, "setnil": 2}),
 		Backends: []string{"mem", "mem", "trace", "prefix"}},
 	Obs:  Observers{Hash: true, NoStepWorkingHash: true},
-	Rule: "history of 20-70 steps incl. read-only calls applied to the real tree only (Get, Has, GetWithIndex, GetByIndex, Iterate, partial Iterator, GetProof/Membership/NonMembership on the working tree, GetVersionedProof, Hash, WorkingHash, ImmutableTree.Hash, GetVersioned, GetImmutable, partial Export), reopen/prune/rollback/export-import hops, restart at an older version + replay of the existing versions (idempotent re-commits) + continuation, InitialVersion in {unset,1,2,7,2^33}; WorkingHash, SaveVersion hash+version, Hash and the hash of every retained version are compared with the reference IAVL+ implementation after every step; non-trivial = reference performed >=1 rotation and >=1 removal, >=3 commits, >=1 read step while the working tree was dirty",
+	Rule: "history of 20-70 steps incl. read-only calls applied to the real tree only (Get, Has, GetWithIndex, GetByIndex, Iterate, partial Iterator, GetProof/Membership/NonMembership on the working tree, GetVersionedProof, Hash, WorkingHash, ImmutableTree.Hash, GetVersioned, GetImmutable, partial Export), reopen/prune/rollback/export-import hops, restart at an older version + replay of the existing versions (idempotent re-commits) + continuation, rejected Set(k,nil) calls and SetInitialVersion on a non-empty store (both documented as without effect), InitialVersion in {unset,1,2,7,63,64,127,128,8191,8192,2^31-1,2^33} by option or setter; WorkingHash, SaveVersion hash+version, Hash and the hash of every retained version are compared with the reference IAVL+ implementation after every step; non-trivial = reference performed >=1 rotation and >=1 removal, >=3 commits, >=1 read step while the working tree was dirty",
 	Nontrivial: func(w *World) bool {
 		return w.Cnt["rotations"] >= 1 && w.Cnt["removals"] >= 1 && w.Cnt["commits"] >= 3 && w.Labels["read_while_dirty"]
 	},
@@ -199,7 +199,7 @@ var specC14 = &worldSpec{
 	Profile: &Profile{MinSteps: 15, MaxSteps: 55, W: weights(mergeW(pruneWeights, map[string]int{"reopen": 12, "save": 26, "lvfo_invalid": 3, "reload": 6, "reload_invalid": 3, "setinit": 2})),
 		Backends: []string{"mem", "mem", "trace", "prefix"}},
 	Obs:  Observers{Versions: true, Fresh: true, Light: true},
-	Rule: "history of 15-55 steps (C04 profile + InitialVersion unset/1/2/7/63/64/127/128/8191/8192/2^31-1/2^33 configured by the option or by SetInitialVersion, reopen / LoadVersion on the live handle at older versions (out-of-range targets must fail and leave the tree as it was) and re-commit, both of drawn writes and of the exact recorded writes of the existing version); after every step and through a fresh handle after prune/rollback: commit numbers consecutive from 1 or InitialVersion; VersionExists(v), GetImmutable(v), GetVersioned(k,v), LoadVersion(v) on a throw-away handle for every v in {0,1} U [first-ever-1, latest+1], AvailableVersions, GetLatestVersion agree with the model range; re-commit of an existing number succeeds without effect iff the reference hashes are equal, else errors with a byte-identical store. non-trivial = >=1 prune or rollback of versions and >=1 reopen",
+	Rule: "history of 15-55 steps (C04 profile + InitialVersion unset/1/2/7/63/64/127/128/8191/8192/2^31-1/2^33 configured by the option or by SetInitialVersion (also called on the live handle at arbitrary moments: ignored unless the store is empty), reopen / LoadVersion on the live handle at older versions (out-of-range targets must fail and leave the tree as it was) and re-commit, both of drawn writes and of the exact recorded writes of the existing version); after every step and through a fresh handle after prune/rollback: commit numbers consecutive from 1 or InitialVersion; VersionExists(v), GetImmutable(v), GetVersioned(k,v), LoadVersion(v) on a throw-away handle for every v in {0,1} U [first-ever-1, latest+1], AvailableVersions, GetLatestVersion agree with the model range; re-commit of an existing number succeeds without effect iff the reference hashes are equal, else errors with a byte-identical store. non-trivial = >=1 prune or rollback of versions and >=1 reopen",
 	Nontrivial: func(w *World) bool {
 		return (w.Labels["prune"] || w.Labels["rollback_versions"]) && w.Labels["reopen"]
 	},
